@@ -55,6 +55,10 @@ def c19_cases(tier):
         (["--deprecation-strategy", "deny"], {"deprecation": "deny"}),
         (["--deprecation-strategy", "allow"], {"deprecation": "allow"}),
         (["--custom-scalars-module", "crate::scalars"], {"custom_scalars_module": "crate::scalars"}),
+        (["--custom-scalars-module", "my_types::scalars"], {"custom_scalars_module": "my_types::scalars"}),
+        (["--custom-scalars-module", "scalars"], {"custom_scalars_module": "scalars"}),
+        (["--custom-scalars-module", "::my_types::scalars"], {"custom_scalars_module": "::my_types::scalars"}),
+        (["--custom-scalars-module", "super::super::scalars"], {"custom_scalars_module": "super::super::scalars"}),
         (["--fragments-other-variant"], {"fragments_other_variant": True}),
         (["--external-enums", "Kind"], {"extern_enums": ["Kind"]}),
         (["--variables-derives", "Debug", "--response-derives", "Clone", "--deprecation-strategy", "deny", "--selected-operation", "HeroWithFriends"],
